@@ -100,6 +100,18 @@ func siblingDoor(c *vf.Ctx, x *chain.Explorer, prev *chain.World, b types.Block,
 							name += " (with its position and proof)"
 						}
 						c.Distinct(prev.Spec.Name, "door5", kind, borrow, len(rs))
+						// door 1 on the same forged transaction (all its elements carry assigned leaf indices)
+						acc := prev.CS.Elements
+						var e1 error
+						if r[j].se.LeafIndex == types.UnassignedLeafIndex {
+							// an in-block (ephemeral) parent is not the accumulator's business: door 1 skips it by design
+						} else if p1, _ := vf.Try(func() { e1 = acc.ValidateTransactionElements(t) }); p1 != nil {
+							x.Violate("door5|panic|ValidateTransactionElements|"+kind, fmt.Sprintf("ValidateTransactionElements panicked on %s: %v", name, p1), path)
+						} else if e1 == nil {
+							x.Violate("door5|forged-sibling-accepted|ValidateTransactionElements|"+kind, fmt.Sprintf("ValidateTransactionElements accepted transaction %d presenting %s: that element was never created", ti, name), append(append([]string(nil), path...), "attack:sibling:"+name))
+						} else {
+							c.Count("door5_door1_mutant_rejected", 1)
+						}
 						err, pv := x.TryBlock(prev, nb, nbs)
 						switch {
 						case pv != nil:
